@@ -9,7 +9,8 @@ the shortest history; after it the abstract value must equal the reference (Pyth
 dict), the representation invariants must hold (sorted, disjoint, non-adjacent, non-empty)
 and every query (contains / len / iteration / each / get / get_spans / bool) must agree.
 Binary operators + - & += -= and the copy constructors are evaluated for every ORDERED PAIR
-of reachable Spans states.
+of reachable Spans states; the result of a pure operator is then changed in place (filled, emptied)
+and the operands must not move (a result that is, or shares state with, an operand is not a value).
 """
 import itertools
 
@@ -125,6 +126,20 @@ def spans_binary_chunk(chunk, U, hists):
         # operands must be unchanged by the pure operators
         if set(a.each()) != ra or set(b.each()) != rb:
             res.violation("spans-binary:mutated-operand", {"kind": "SpansBinary", "a": hists[i], "b": hists[j], "op": "pure"}, "operand mutated")
+        # ... and their results are values of their own: changing a result afterwards (fill it, then empty
+        # it) must not show in either operand (a result that IS an operand, or shares its list, would)
+        for name, got, want in checks[:4]:
+            res.count("transitions")
+            for fill in (True, False):
+                if fill:
+                    got.add(B(0), U)
+                else:
+                    got.remove(B(0), U)
+                if set(a.each()) != ra or set(b.each()) != rb:
+                    res.violation("spans-binary:result-shares-state-with-operand", {"kind": "SpansBinary", "a": hists[i], "b": hists[j], "op": name},
+                                  "after %s the result of `a %s b` was %s in place; operands now read %r / %r, were %r / %r" % (
+                                      "a " + name + " b", name, "filled" if fill else "emptied", sorted(a.each()), sorted(b.each()), sorted(ra), sorted(rb)))
+                    break
     return res
 
 
